@@ -142,6 +142,24 @@ ChainFam(k) ==
     {Cfg1(Ut, ChainReq, <<C(PE("g", ""), PE(first, ""))>> \o [i \in 1..Len(Asc(I)) |-> ChainBody[Asc(I)[i]]]) :
         first \in {"c", "p"}, I \in KSub(Len(ChainBody), k)}
 
+\* nested flow references: A references B on either side, B hands over to / continues behind a third flow C; every
+\* declaration order of B's connections (the builder is order-sensitive), request and response direction
+RECURSIVE Perms(_)
+Perms(s) == IF Len(s) <= 1 THEN {s}
+            ELSE UNION {{<<s[i]>> \o p : p \in Perms([j \in 1..(Len(s) - 1) |-> IF j < i THEN s[j] ELSE s[j + 1]])} : i \in 1..Len(s)}
+Un1 == <<Pr("a", "Plain")>>
+Un2 == <<Pr("b", "Cond"), Pr("d", "Plain")>>
+Un3 == <<Pr("e", "Plain")>>
+CLine == <<C(S0, PE("e", "")), C(PE("e", ""), S1)>>
+NestA == {<<C(FE("B", "end"), PE("a", "")), C(PE("a", ""), S1)>>, <<C(S0, PE("a", "")), C(PE("a", ""), FE("B", "start"))>>}
+NestB == Perms(<<C(S0, PE("b", "")), C(PE("b", "hit"), PE("d", "")), C(PE("b", "miss"), FE("C", "start")), C(PE("d", ""), S1)>>)
+         \cup Perms(<<C(FE("C", "end"), PE("b", "")), C(PE("b", "hit"), PE("d", "")), C(PE("b", "miss"), S1), C(PE("d", ""), S1)>>)
+TrivA == <<C(S0, PE("a", "")), C(PE("a", ""), S1)>>
+TrivB == <<C(S0, PE("d", "")), C(PE("d", ""), S1)>>
+Cfg3(aq, as, bq, bs) == [flows |-> <<Flow("A", "h.test/x", Un1, aq, as), Flow("B", "h.test/y", Un2, bq, bs),
+                                      Flow("C", "h.test/z", Un3, CLine, CLine)>>, quotas |-> <<>>]
+NestFam == UNION {{Cfg3(a, TrivA, b, TrivB) : a \in NestA, b \in NestB}, {Cfg3(TrivA, a, TrivB, b) : a \in NestA, b \in NestB}}
+
 \* structurally invalid files
 Bad ==
     {Cfg1(Ut, <<>>, Trivial), Cfg1(Ut, Trivial, <<>>), Cfg1(Ut, Trivial, Trivial),
@@ -153,8 +171,8 @@ Bad ==
 
 \* (an operator with a parameter, so that TLC evaluates only the space that is used)
 ConfigSpace(tier) ==
-    IF tier = "nv" THEN UNION {EntryFam(Ut, 2), ResCentric(Uq, 2), TwoFlows(2), SelfRef}
-    ELSE IF tier = "quick" THEN UNION {ReqCentric(Uq, 3), ResCentric(Uq, 3), EntryFam(Ut, 3), RefFam(2), ChainFam(2), SelfRef, Bad}
+    IF tier = "nv" THEN UNION {EntryFam(Ut, 2), ResCentric(Uq, 2), TwoFlows(2), NestFam, SelfRef}
+    ELSE IF tier = "quick" THEN UNION {ReqCentric(Uq, 3), ResCentric(Uq, 3), EntryFam(Ut, 3), RefFam(2), ChainFam(2), NestFam, SelfRef, Bad}
     ELSE IF tier = "mid" THEN UNION {ReqCentric(Ut, 3), ResCentric(Ut, 3), TwoFlows(2), SelfRef, Bad}
-    ELSE UNION {ReqCentric(Ut, 3), EntryFam(Ut, 4), ResCentric(Ut, 3), EntryFam(Ul, 3), TwoFlows(3), RefFam(3), ChainFam(3), SelfRef, Bad}
+    ELSE UNION {ReqCentric(Ut, 3), EntryFam(Ut, 4), ResCentric(Ut, 3), EntryFam(Ul, 3), TwoFlows(3), RefFam(3), ChainFam(3), NestFam, SelfRef, Bad}
 =============================================================================
